@@ -30,6 +30,7 @@ var ruleGroups = map[string]func(*Ctx){
 	"X1": rulesTransport, "X2": rulesTransport, "X3": rulesTransport, "W1": rulesTransport,
 	"G9": rulesExtra3, "P5": rulesExtra3, "M4": rulesExtra3, "M5": rulesExtra3, "X4": rulesExtra3, "B6": rulesExtra3, "G8": rulesExtra3,
 	"X7": rulesExtra4, "L5": rulesExtra4, "R3": rulesExtra4, "R4": rulesExtra4, "J2": rulesExtra4, "R5": rulesExtra4, "I10": rulesExtra4, "L4": rulesExtra4, "M6": rulesExtra4, "I8": rulesExtra4, "I9": rulesExtra4, "T6": rulesExtra4, "L3": rulesExtra4, "E6": rulesExtra4, "X5": rulesExtra4, "X6": rulesExtra4,
+	"P6": rulesExtra5, "P7": rulesExtra5, "X8": rulesExtra5, "G10": rulesExtra5, "G11": rulesExtra5, "R6": rulesExtra5,
 	"S1": rulesExtra2, "G7": rulesExtra2, "Q5": rulesExtra2, "T5": rulesExtra2, "I7": rulesExtra2,
 	"I6": rulesExtra, "T2": rulesExtra, "P4": rulesExtra, "B4": rulesExtra, "B5": rulesExtra, "T3": rulesExtra, "T4": rulesExtra,
 	"M1": rulesAddr, "M2": rulesAddr, "M3": rulesAddr, "D2": rulesAddr,
@@ -88,8 +89,8 @@ var propSpecs = map[string]*propSpec{
 	"C01": {ID: "C01", Rules: rr("I1", "I2", "I3", "I4", "I6", "I8", "I9", "I10"), Controls: []string{"I4", "I2", "I8", "I9", "I10"},
 		Explanation: "Repo-side necessary conditions of order-independence: every index implementation computes its view from the log's total order only (I1: Values(), never GetEntries/Heads/Iterator/the incremental argument), the last-writer-wins scan is coherent (I2: scan direction vs first-seen guard; tested, marked and written key identical by normal form), store and index agree on the opcode table (I3), and every route that changes the log (write path, three merge sites) refreshes the view before reporting success (I4). The index interprets the whole total order and nothing it remembers between calls decides what is interpreted (I6). View maps are keyed by the key as written, or hold a collection per computed key (I8); JSON decode targets are allocated for the decode, because everything is encoded with omitempty (I9).",
 		NotDecided:  "that Join is set union and Values() a deterministic total order (CRDT inside go-ipfs-log); actual delivery orders."},
-	"C02": {ID: "C02", Rules: cat(rr("W1", "L2", "P3", "Q4", "T6", "L3"), []ruleRef{only("P2", "_localHeads", "Get(", "anchor")}), Controls: []string{"P3", "T6", "L3"},
-		Explanation: "Wiring needed for eventual delivery: a peer joining the topic reaches the head exchange, which sends the cached heads under the store's own address on its success path (W1); the key the write path persists is the one the exchange and the load path read (P2); fetched entries' next links are queued (L2); and the persisted local head covers every acknowledged write because Append and the persisting Put share a critical section (P3). The replicator sets no fetch timeout (Q4: under DF7 a timeout silently truncates ancestry) and the locally written head is in the exchanged message on every path (W1 selection test). Whether a received head is handed to the replicator does not depend on an insert-only or unverified memo (T6); the replicator's buffer is read out and reset inside one critical section, counting the locks every caller holds (L3).",
+	"C02": {ID: "C02", Rules: cat(rr("W1", "L2", "P3", "Q4", "T6", "L3", "Q2", "Q3", "Q5"), []ruleRef{only("P2", "_localHeads", "Get(", "anchor"), only("Q1", "failed-fetch", "tasks[]")}), Controls: []string{"P3", "T6", "L3"},
+		Explanation: "Wiring needed for eventual delivery: a peer joining the topic reaches the head exchange, which sends the cached heads under the store's own address on its success path (W1); the key the write path persists is the one the exchange and the load path read (P2); fetched entries' next links are queued (L2); and the persisted local head covers every acknowledged write because Append and the persisting Put share a critical section (P3). The replicator sets no fetch timeout (Q4: under DF7 a timeout silently truncates ancestry) and the locally written head is in the exchanged message on every path (W1 selection test). Whether a received head is handed to the replicator does not depend on an insert-only or unverified memo (T6); the replicator's buffer is read out and reset inside one critical section, counting the locks every caller holds (L3). A request abandoned while the links were cut leaves the replicator able to serve the re-sent heads after the heal: a hash whose fetch failed or came back empty is not kept as fetched (Q1, Q3), a worker that gives up gives its queued item back (Q2), and every counter the idle test reads is given back on every path of a worker, wherever it was taken — in the worker, at enqueue or where the worker is started (Q5).",
 		NotDecided:  "liveness itself: fault sequences, retries, pubsub behaviour, fetchability of blocks."},
 	"C03": {ID: "C03", Rules: rr("A1", "A2", "A3", "A4", "T2"), Controls: []string{"A1"},
 		Explanation: "For all access-controller implementations: every accepting path of CanAppend passes a successful write-list membership comparison and an identity verification whose result is used (A1); that verification is not a constant accept (A2, derived from the dependency); the signing key is bound to the named identity (A3); every log is constructed with the store's controller and database id, is mutated only through Append/Join, and the controller and store type come from the manifest at the address root (A4). Join is always called on the store's own log with the fetched log as argument, and the oplog field is only assigned a fresh NewLog (T2).",
@@ -97,8 +98,8 @@ var propSpecs = map[string]*propSpec{
 	"C04": {ID: "C04", Rules: rr("T1", "A4", "T2", "T3", "T4", "T5"), Controls: []string{"T1"},
 		Explanation: "Interprocedural field-based taint from every read of a decoded MessageExchangeHeads.Heads to log constructors, entry maps and Join: no entry object received from the network reaches a log except through its content address (T1); logs are only built with the store's access controller and id and only mutated through Append/Join (A4). Join direction and oplog provenance (T2); fetched entries with a foreign log id are refused (T3); only heads accepted by the access controller are handed to the replicator (T4); the claimed address is compared as a whole with the recomputed one (T5).",
 		NotDecided:  "the dependency's signature check and log-id filter inside Join; hash collision resistance."},
-	"C05": {ID: "C05", Rules: cat(rr("P1", "P3", "P4", "P5", "L4"), []ruleRef{except("P2", "snapshot", "queue")}), Controls: []string{"P1"},
-		Explanation: "Ordering of persistence effects on every path: Append → cache Put (error tested, failing branch leaves) → successful return; Join → Put of merged heads (error tested) → EventReplicated (P1); the keys written by those paths and the manifest marker are read back under the same names by the load path, the exchange and the local-presence test, and both head sets read by the load path feed the fetch (P2). No cached head key is deleted outside Drop (P4). The head persisted after a local write is produced and written inside one critical section, so the cache never ends up naming an older entry than the last acknowledged one (P3). A history fetched at load that is refused as a whole is merged entry by entry, so one refused ancestor does not cost the entries reported as replicated before the restart (L4).",
+	"C05": {ID: "C05", Rules: cat(rr("P1", "P3", "P4", "P5", "L4", "P6", "P7", "X8"), []ruleRef{except("P2", "snapshot", "queue")}), Controls: []string{"P1", "P6", "P7", "X8"},
+		Explanation: "Ordering of persistence effects on every path: Append → cache Put (error tested, failing branch leaves) → successful return; Join → Put of merged heads (error tested) → EventReplicated (P1); the keys written by those paths and the manifest marker are read back under the same names by the load path, the exchange and the local-presence test, and both head sets read by the load path feed the fetch (P2). No cached head key is deleted outside Drop (P4). The head persisted after a local write is produced and written inside one critical section, so the cache never ends up naming an older entry than the last acknowledged one (P3). A history fetched at load that is refused as a whole is merged entry by entry, so one refused ancestor does not cost the entries reported as replicated before the restart (L4). The load path only reads the head records: the log it rebuilds is as complete as the fetch was, which nothing reports (DF7), so its heads are never written back (P6). What the merge path records is Heads() of the store's log read after the merge, not the heads of the batch (P7). No block is ever removed from the block store (X8).",
 		NotDecided:  "durability of leveldb/IPFS writes; the state recovered from each crash prefix (needs CRDT semantics)."},
 	"C06": {ID: "C06", Rules: []ruleRef{only("I1", "kvstore"), only("I2", "kvstore"), only("I3", "kvstore"), {Rule: "I4"}, only("I6", "kvstore"), only("I8", "kvstore"), only("I9", "kvstore", "stores/operation"), only("I10", "kvstore")}, Controls: []string{"I2"},
 		Explanation: "Key-value index: view computed from Values() only (I1); descending scan with a first-seen guard whose tested, marked and written key are the same expression, PUT stores and DEL deletes (I2, I3); every log change refreshes the view (I4). View writes keyed verbatim (I8); operations are decoded into fresh values (I9).",
@@ -121,8 +122,8 @@ var propSpecs = map[string]*propSpec{
 	"C12": {ID: "C12", Rules: []ruleRef{{Rule: "N2"}, {Rule: "N4"}, only("E3", "pubsub", "PayloadEmitter"), {Rule: "T1"}, {Rule: "T4"}, only("N1", "directchannel"), except("G7", "replicator"), {Rule: "T6"}}, Controls: []string{"N4", "N2", "T1", "T6"},
 		Explanation: "Allocation sizes decoded from a stream are bounded on both sides before use (N2, N1 on the frame-length conversion); every pointer decoded from a message or fetched entry (heads elements, GetIdentity() results, announced clocks) is nil-tested as a pointer before dereference, including through interface boxing (N4); the payload emitter's value type matches (E3); received entries cannot alter a log except by content address (T1). A received entry is re-encoded only after its clock and identity signatures were found present (N4d, DF8); only accepted heads reach the replicator (T4); frame slots are released on every path (G7). Clocks and identities of received heads are guarded wherever the heads flow, including helpers and access controllers (N4 e/f over T1's taint set); nothing is recorded about a head under its claimed hash before that hash was verified (T6).",
 		NotDecided:  "panics inside dependencies (JSON/CBOR decoders, libp2p)."},
-	"C13": {ID: "C13", Rules: []ruleRef{only("N1", "basestore"), {Rule: "N3"}, only("X3", "basestore"), only("P2", "snapshot", "queue"), {Rule: "X5"}, {Rule: "X6"}}, Controls: []string{"N3", "X6", "X5"},
-		Explanation: "Both 16-bit length prefixes of the snapshot writer are guarded by a range test (N1); make-then-fill loops allocate with the length of the collection they range over (N3: GetQueue); writer and loader use the same prefix width and byte order (X3); the snapshot and queue keys are written and read under the same names (P2). The header's Len()/Heads() are read before the entries that are serialised (X5); frame buffers are filled by a full read — io.ReadFull or the UnixFS file's own Read, DF10 (X6).",
+	"C13": {ID: "C13", Rules: []ruleRef{only("N1", "basestore"), {Rule: "N3"}, only("X3", "basestore"), only("P2", "snapshot", "queue"), {Rule: "X5"}, {Rule: "X6"}, {Rule: "X8"}}, Controls: []string{"N3", "X6", "X5", "X8"},
+		Explanation: "Both 16-bit length prefixes of the snapshot writer are guarded by a range test (N1); make-then-fill loops allocate with the length of the collection they range over (N3: GetQueue); writer and loader use the same prefix width and byte order (X3); the snapshot and queue keys are written and read under the same names (P2). The header's Len()/Heads() are read before the entries that are serialised (X5); frame buffers are filled by a full read — io.ReadFull or the UnixFS file's own Read, DF10 (X6). Nothing removes a block: a snapshot of an unchanged log is the very same file as the previous one, so freeing the replaced snapshot frees the new one (X8).",
 		NotDecided:  "round-trip equality of the decoded log."},
 	"C14": {ID: "C14", Rules: []ruleRef{{Rule: "M1"}, {Rule: "M2"}, {Rule: "M3"}, {Rule: "M4"}, {Rule: "M5"}, {Rule: "M6"}, only("A4", "baseorbitdb")}, Controls: []string{"M6"},
 		Explanation: "No clock, randomness, process identity or map-iteration order flows into what is written on the address-determination cone (M1); the address prefix constant agrees between printing and parsing (M2); the local-presence test dominates the marker write in Create and store creation in Open, and its outcome can refuse (M3); controller and store type come from the manifest (A4 iii). The ipfs controller's Load assigns the decoded list on every successful path and the decoded manifest takes nothing from the opener (M4); address values are only built by the parser (M5). An address built by joining the manifest hash with the caller's name is only returned where its parsed root equals the manifest hash (M6); the manifest's access-controller address is put in place on every path to the store creation (A4).",
@@ -136,10 +137,10 @@ var propSpecs = map[string]*propSpec{
 	"C17": {ID: "C17", Rules: []ruleRef{{Rule: "P3"}, only("I4", "Append"), {Rule: "I10"}}, Controls: []string{"P3"},
 		Explanation: "The value persisted as local head is produced (Append) and written (Put) inside one exclusive critical section that is not released in between (P3). Every acknowledged write has refreshed the view (I4 on the write path).",
 		NotDecided:  "distinctness of appended entries (the dependency's append lock)."},
-	"C18": {ID: "C18", Rules: rr("G1", "G3", "G4", "G5", "G6", "G8", "G9", "B3", "B6", "L5"),
-		Explanation: "Every goroutine's loops have an owner-tied exit and helper goroutines never block on a channel whose receiver may have left (G1); Close reaches cancel, Replicator.Stop, cache close, every emitter it created and the legacy subscribers, every bus subscription is closed, instance Close reaches its parts (G3); no call made under a lock re-acquires the same lock class (G4); Close starts with the closed test, Drop closes first and removes only the path derived from the database's own address (G5); condition variables are signalled with their lock held (G6); shared table entries are not bound to one caller's context (B3). Past its guard Close passes cancel, Replicator.Stop, cache Close and the legacy teardown on every path (G8); close hooks are not chained through the caller's options (B6).",
+	"C18": {ID: "C18", Rules: cat(rr("G1", "G3", "G4", "G5", "G6", "G8", "G9", "G10", "G11", "B3", "B6", "L5"), []ruleRef{only("G7", "replicator")}), Controls: []string{"G11"},
+		Explanation: "Every goroutine's loops have an owner-tied exit and helper goroutines never block on a channel whose receiver may have left (G1); Close reaches cancel, Replicator.Stop, cache close, every emitter it created and the legacy subscribers, every bus subscription is closed, instance Close reaches its parts (G3); no call made under a lock re-acquires the same lock class (G4); Close starts with the closed test, Drop closes first and removes only the path derived from the database's own address (G5); condition variables are signalled with their lock held (G6); shared table entries are not bound to one caller's context (B3). Past its guard Close passes cancel, Replicator.Stop, cache Close and the legacy teardown on every path (G8); close hooks are not chained through the caller's options (B6). What Drop destroys is the directory and address the store's cache was loaded with (G10). A worker whose wait for a fetch slot failed — the request was cancelled, the store closed — releases no slot: a weighted semaphore panics when more is released than was acquired (G7, failing branch). A goroutine that belongs to one call of an operation and writes the replication status is waited for before the operation returns, so that nothing is still writing it after a Close that follows (G11).",
 		NotDecided:  "prompt return of every post-close operation (depends on leveldb and the bus)."},
-	"C19": {ID: "C19", Rules: rr("R1", "R2", "R3", "R4", "R5"), Controls: []string{"R4"},
+	"C19": {ID: "C19", Rules: rr("R1", "R2", "R3", "R4", "R5", "R6"), Controls: []string{"R4"},
 		Explanation: "The status is written only by the recalculation helpers and reset only by Close (R1); the helpers are executed abstractly on every weak ordering of (arg, logLen, oldMax, progress, progress+1): neither value decreases and progress <= maximum is re-established (R2). Progress also ends at or above the log length on every order type.",
 		NotDecided:  "relation to Lamport times; progress = maximum at rest beyond the paths R3/R4 cover (a failed fetch leaves the maximum raised)."},
 	"C20": {ID: "C20", Rules: []ruleRef{{Rule: "X1"}, {Rule: "X2"}, only("X3", "directchannel"), {Rule: "N2"}, only("N1", "directchannel"), except("G7", "replicator"), {Rule: "X4"}, {Rule: "X7"}, only("L5", "pubsub", "verifCtl")}, Controls: []string{"N2", "L5"},
